@@ -7,9 +7,13 @@ use crate::{
 
 mod entry;
 mod iter;
+#[cfg(feature = "verif-hooks")]
+mod verif;
 
 pub use entry::*;
 pub use iter::*;
+#[cfg(feature = "verif-hooks")]
+pub use verif::*;
 
 /// Prefix map implemented as a prefix tree.
 ///
